@@ -18,6 +18,8 @@ import (
 	_ "verif/simtest/c05" // registers C05PROBE/blinded-without-auction
 	"verif/simtest/c07"
 	_ "verif/simtest/c09" // registers C09PROBE/unobtainable-client-*
+	_ "verif/simtest/c10" // execution configurations of any shape, resolved for every validator
+	_ "verif/simtest/c12" // configuration source returning errors, null, garbled and partial documents
 	. "verif/simtest/env"
 	"verif/simtest/syssim"
 )
@@ -153,7 +155,8 @@ func init() {
 		sim.Register(s)
 	}
 	// odd-content probes built with the proposer and auction scenarios: only crashes count here
-	for _, ref := range [][2]string{{"C05PROBE", "blinded-without-auction"}, {"C09PROBE", "unobtainable-client-best"}, {"C09PROBE", "unobtainable-client-deadline"}} {
+	for _, ref := range [][2]string{{"C05PROBE", "blinded-without-auction"}, {"C09PROBE", "unobtainable-client-best"}, {"C09PROBE", "unobtainable-client-deadline"},
+		{"C12", "config-source-chaos"}, {"C10", "precedence"}, {"C05", "propose"}} {
 		src := sim.Find(ref[0], ref[1])
 		if src == nil {
 			continue
